@@ -57,13 +57,14 @@ namespace sim
 			{
 				// the hook may post new work after the queue drained (which
 				// leaves the io_context in its stopped state), hence the
-				// restart() before every poll_one()
+				// restart() when it says so. Otherwise this loop is exactly
+				// poll(), including when a handler stops the io_context
 				last_executed = 0;
 				while (m_service.poll_one())
 				{
 					++last_executed;
-					verif_step_hook();
-					m_service.restart();
+					if (verif_step_hook())
+						m_service.restart();
 				}
 			}
 			else
